@@ -98,3 +98,38 @@ def run(ctx):
         ctx.analysed(tc, 0)
         g = CallGuard(r'contains$', 'false', argpred=lambda f, bi, t: 'Claim::redactions' in T.call_term(f, bi), name='applied.contains(requested redaction) = false')
         n = oblig.failing_edge_obligation(ctx, 'C20-D5', fn, g, lambda bi, b: False, 'Err(AssertionRedactionNotFound)')
+
+    # ---- D6 merging an ingredient whose manifest is already present in a differently redacted form: when only the CURRENT claim's copy is redacted,
+    # the incoming (un-redacted) copy must be dropped, otherwise the redacted assertion data comes back.  Structural form: a push of the conflicting label
+    # (onto the drop list) sits on the edges `claim redactions non-empty` and `incoming redactions empty`.
+    ln = 'store::Store::load_ingredient_to_claim'
+    if ctx.require(prog.has(ln), ln):
+        fn = prog.fn(ln)
+        calls = list(fn.calls())
+        ctx.analysed(ln, len(calls))
+        tests = []
+        for bi, t in calls:
+            if t['fd'].endswith('::is_empty') and 'redactions' in T.call_term(fn, bi):
+                sw = fn.B[fn.B[bi]['t']['t']]['t'] if fn.B[bi]['t'].get('t') is not None else None
+                cur = fn.B[bi]['t'].get('t')
+                hops = 0
+                while sw and sw['k'] != 'switch' and hops < 3:
+                    cur = sw.get('t'); sw = fn.B[cur]['t'] if cur is not None else None; hops += 1
+                if not sw or sw['k'] != 'switch':
+                    continue
+                neg = any(rv['k'] == 'un' and rv['op'] == 'Not' for dst, rv in fn.B[cur]['s'])
+                zero = [x for v, x in sw['ts'] if v == 0]
+                if not zero:
+                    continue
+                t_true, t_false = (sw['o'], zero[0]) if not neg else (zero[0], sw['o'])
+                tests.append((bi, T.call_term(fn, bi), t_true, t_false))      # edges for is_empty = true / false
+        pushes = [bi for bi, t in calls if re.search(r'Vec::<T, A>::push$|Vec::push$', t['fd']) and 'Iterator::next(' in T.call_term(fn, bi) and 'conflict' not in '']
+        ok = False
+        for pb in pushes:
+            ne = [x for x in tests if fn.dominates(x[3], pb)]       # some redaction list non-empty
+            em = [x for x in tests if fn.dominates(x[2], pb)]       # another redaction list empty
+            if any(a[1] != b[1] for a in ne for b in em):
+                ok = True
+        ctx.ob('C20-D6', ln, 'conflict where only the current claim redacts', 'the incoming copy is dropped (label pushed on the edges: one redaction list non-empty, the other empty)', ok,
+               detail='%d redaction emptiness tests, %d candidate pushes' % (len(tests), len(pushes)), site=loc(fn.d['span']))
+
